@@ -91,7 +91,27 @@ fn decoder_case() -> BoxedStrategy<Case> {
                 let kept = pattern.as_ref().map_or(n, |p| n / p.len() * p.iter().filter(|&&b| b).count());
                 let pat = pattern.clone();
                 let full = llr_vector(&hh);
-                let call = (full, any::<bool>(), 0..=n, prop_oneof![4 => Just(0u32), 6 => 1u32..=4, 4 => 5u32..=30, 1 => prop_oneof![Just(1_000_000u32), Just(i32::MAX as u32), Just(i32::MAX as u32 + 1), Just(u32::MAX)]], any::<bool>()).prop_map(move |(llrs, as_f32, output_len, limit, full_out)| {
+                let call = (full, any::<bool>(), 0..=n, prop_oneof![4 => Just(0u32), 6 => 1u32..=4, 4 => 5u32..=30, 1 => prop_oneof![Just(1_000_000u32), Just(i32::MAX as u32), Just(i32::MAX as u32 + 1), Just(u32::MAX)]], any::<bool>(), prop_oneof![11 => Just(0u8), 1 => 1u8..=6], any::<u16>()).prop_map(move |(mut llrs, as_f32, output_len, limit, full_out, nonfinite, at)| {
+                    // one call in twelve carries infinite or NaN LLRs (certain bits, possibly contradicting
+                    // each other; undefined samples): the wrapper must hand them to the decoder untouched
+                    if nonfinite != 0 && !llrs.is_empty() {
+                        let i = idx(at, llrs.len());
+                        let j = (i + 1) % llrs.len();
+                        match nonfinite {
+                            1 => llrs[i] = f64::INFINITY,
+                            2 => llrs[i] = f64::NEG_INFINITY,
+                            3 => llrs[i] = f64::NAN,
+                            4 => {
+                                llrs[i] = f64::INFINITY;
+                                llrs[j] = f64::NEG_INFINITY;
+                            }
+                            5 => {
+                                llrs[i] = f64::INFINITY;
+                                llrs[j] = f64::INFINITY;
+                            }
+                            _ => llrs.iter_mut().enumerate().for_each(|(t, x)| *x = if (t + i) % 3 == 0 { f64::NEG_INFINITY } else { f64::INFINITY }),
+                        }
+                    }
                     // keep the LLRs of the transmitted blocks only
                     let kept_llrs: Vec<f64> = match &pat {
                         None => llrs,
@@ -101,7 +121,7 @@ fn decoder_case() -> BoxedStrategy<Case> {
                         }
                     };
                     // f32 calls use values that survive the narrowing (the wrapper receives the f32 buffer)
-                    let kept_llrs: Vec<f64> = if as_f32 { kept_llrs.iter().map(|&x| x.clamp(-3e38, 3e38) as f32 as f64).collect() } else { kept_llrs };
+                    let kept_llrs: Vec<f64> = if as_f32 { kept_llrs.iter().map(|&x| if x.is_finite() { x.clamp(-3e38, 3e38) as f32 as f64 } else { x }).collect() } else { kept_llrs };
                     DecCall { llrs: kept_llrs.into_iter().map(Fx).collect(), as_f32, output_len: if full_out { usize::MAX } else { output_len }, limit }
                 });
                 let _ = kept;
@@ -311,10 +331,19 @@ fn run_case(case: &Case) -> Check {
                 let mut limit = c.limit;
                 if limit > 1000 {
                     let mut probe = imp_rust.build_decoder(parsed.clone());
-                    if probe.decode(&full, 64).is_err() {
+                    if !matches!(std::panic::catch_unwind(std::panic::AssertUnwindSafe(|| probe.decode(&full, 64))), Ok(Ok(_))) {
                         limit = 64;
                     }
                 }
+                // the reference first: a frame on which the Rust decoder itself panics (possible with
+                // non-finite LLRs) has no defined outcome and is not sent through the C interface
+                let want = {
+                    let mut fresh = imp_rust.build_decoder(parsed.clone());
+                    match std::panic::catch_unwind(std::panic::AssertUnwindSafe(|| fresh.decode(&full, limit as usize))) {
+                        Ok(w) => w,
+                        Err(_) => continue,
+                    }
+                };
                 let mut out = vec![0xEEu8; c.output_len + 4]; // guard bytes behind the buffer
                 let ret = unsafe {
                     if c.as_f32 {
@@ -324,8 +353,6 @@ fn run_case(case: &Case) -> Check {
                         ldpc_toolbox_decoder_decode_f64(handle, out.as_mut_ptr(), c.output_len, llrs.as_ptr(), llrs.len(), limit)
                     }
                 };
-                let mut fresh = imp_rust.build_decoder(parsed);
-                let want = fresh.decode(&full, limit as usize);
                 let (want_ret, want_word) = match &want {
                     Ok(o) => (o.iterations as i32, &o.codeword),
                     Err(o) => (-1, &o.codeword),
@@ -562,7 +589,7 @@ pub fn property() -> Property {
         id: "C19",
         subs: vec![Box::new(Sub {
             name: "c-api",
-            rule: "each case in a child process (abort isolation). Decoder handles: alist (own writer, padded or not, as text or as a file) of a C01-style matrix, one of the 36 names, pattern '' or a 0/1 list with >= one 1 whose length (up to 12) divides n (n up to 14, in a fifth of the cases up to 36, one case in 26 with 250..=330 columns), then 1..=8 decode calls (f64 or f32 buffers of the punctured length, output_len in 0..=n, limits incl. 0 and, for frames that a fresh Rust decoder converges on within 64 iterations, 10^6, 2^31-1, 2^31 and 2^32-1): return value = iterations / -1 and the output = leading bits of what a fresh Rust decoder returns for Puncturer::depuncture(llrs) (f32 widened); guard bytes behind the buffer untouched. Encoder handles: C02-style matrices (one in 26 with 60..=140 rows or 200..=1100 message bits), pattern, 1..=4 messages: output = punctured Encoder::encode; a singular tail must give null. One path used three times (file holds H1, is overwritten with H2, is deleted): the second handle decodes as the Rust decoder of H2, the third constructor returns null. Failing constructors: malformed alist texts (C08 generator, filtered to texts the Rust parser rejects), unknown names, malformed patterns, missing file, directory instead of file, singular tail, names / patterns that are not valid UTF-8 -> null. Non-trivial = decoder handle with >= 2 calls, encoder with a pattern, or a failing constructor; inner = decode calls",
+            rule: "each case in a child process (abort isolation). Decoder handles: alist (own writer, padded or not, as text or as a file) of a C01-style matrix, one of the 36 names, pattern '' or a 0/1 list with >= one 1 whose length (up to 12) divides n (n up to 14, in a fifth of the cases up to 36, one case in 26 with 250..=330 columns), then 1..=8 decode calls (f64 or f32 buffers of the punctured length, output_len in 0..=n, one call in twelve with infinite or NaN LLRs, skipped when the Rust decoder itself panics on them; limits incl. 0 and, for frames that a fresh Rust decoder converges on within 64 iterations, 10^6, 2^31-1, 2^31 and 2^32-1): return value = iterations / -1 and the output = leading bits of what a fresh Rust decoder returns for Puncturer::depuncture(llrs) (f32 widened); guard bytes behind the buffer untouched. Encoder handles: C02-style matrices (one in 26 with 60..=140 rows or 200..=1100 message bits), pattern, 1..=4 messages: output = punctured Encoder::encode; a singular tail must give null. One path used three times (file holds H1, is overwritten with H2, is deleted): the second handle decodes as the Rust decoder of H2, the third constructor returns null. Failing constructors: malformed alist texts (C08 generator, filtered to texts the Rust parser rejects), unknown names, malformed patterns, missing file, directory instead of file, singular tail, names / patterns that are not valid UTF-8 -> null. Non-trivial = decoder handle with >= 2 calls, encoder with a pattern, or a failing constructor; inner = decode calls",
             cases: |t| t.pick(12_000, 400_000),
             strategy,
             check,
